@@ -21,6 +21,11 @@ import (
 //
 // ops
 //   pure  <s>            | GoCamelCase JSONCamelCase JSONSnakeCase fmclass fmout
+//   go_pure <s>          | GoCamelCase JSONCamelCase JSONSnakeCase, or "panic"  (compared with the *translated source*, Gen/StrsGo.v)
+//   go_cls <byte>        | isASCIILower isASCIIUpper isASCIIDigit as observed through the exported functions (Gen/StrsGo.v)
+//   trim  <s> <prefix>   | TrimEnumPrefix      (hand model CodeGen/StrsTrimModel.v)
+//   go_trim <s> <prefix> | TrimEnumPrefix, or "panic"  (translated source)
+//   go_lower <byte>      | unicode.ToLower(rune(byte))  (hand-written CodeGen/StrsGoBase.v, which the translated TrimEnumPrefix calls)
 //   san   <s> <table>    | GoSanitized      (table = unicode class of every non-ASCII rune of s)
 //   unique ...           | see fam_names_unique.go
 
@@ -109,10 +114,134 @@ func namesFieldMask(c *Ctx, s string) (int, string) {
 	return 0, out[1 : len(out)-1]
 }
 
+// namesCall runs one of the strs conversions; a panic (the property and the
+// theorem C42_go_strs_never_panic say there is none) is a property failure with
+// the input attached.
+func namesCall(c *Ctx, name string, f func(string) string, s string) (out string, tok string) {
+	defer func() {
+		if r := recover(); r != nil {
+			c.PropFail("C42", "strs."+name+" panics", HexB([]byte(s)))
+			out, tok = "", "panic"
+		}
+	}()
+	out = f(s)
+	return out, HexB([]byte(out))
+}
+
+// namesClasses observes the unexported byte classes through the exported
+// functions, for every byte value: JSONSnakeCase(c) has two bytes exactly when
+// isASCIIUpper(c); JSONCamelCase("_"+c) differs from c (for c != '_') exactly
+// when isASCIILower(c); GoCamelCase(c+"a") == c+"A" exactly when isASCIIDigit(c)
+// (a digit does not start a word, so the 'a' after it is capitalised; after any
+// other copied byte the inner loop copies the 'a' unchanged; '.', '_' and
+// lower-case letters are not copied as they are).
+func namesClasses(c *Ctx) {
+	for b := 0; b < 256; b++ {
+		ch := string([]byte{byte(b)})
+		upper := len(strs.JSONSnakeCase(ch)) == 2
+		lower := b != '_' && strs.JSONCamelCase("_"+ch) != ch
+		digit := strs.GoCamelCase(ch+"a") == ch+"A"
+		c.Case("names", "go_cls", []string{HexN(uint64(b))}, []string{namesBool(lower), namesBool(upper), namesBool(digit)})
+	}
+}
+
+var namesTrimCorpus = [][2]string{
+	{"FOO_BAR", "foo"}, {"FOO_BAR", "foobar"}, {"FOO_BAR", "foob"}, {"_FOO__BAR", "foo"}, {"foo", "foo"}, {"FOO_", "foo"}, {"FOO", ""},
+	{"", ""}, {"", "a"}, {"___", ""}, {"___", "a"}, {"F_O_O_x", "foo"}, {"FOO__x", "foo"}, {"FOOx", "fo_o"}, {"FO_Ox", "fo_o"},
+	{"\xc0B", "\xe0"}, {"\xc0B", "\xc0"}, {"\xd7B", "\xf7"}, {"\xd7B", "\xd7"}, {"\xdeB", "\xfe"}, {"\xdfB", "\xff"}, {"\xb5B", "\xb5"},
+	{"\xffB", "\xff"}, {"\x80B", "\x80"}, {"\x80B", "\xa0"}, {"ZB", "z"}, {"[B", "{"}, {"@B", "`"}, {"zB", "z"},
+}
+
+// namesTrim: strs.TrimEnumPrefix against the hand model (trim) and against the
+// translated source (go_trim); the predicate: no panic, the result is a suffix
+// of s and is empty only when s is.
+func namesTrim(c *Ctx, s, prefix string) {
+	out, tok := func() (out, tok string) {
+		defer func() {
+			if r := recover(); r != nil {
+				c.PropFail("C42", "strs.TrimEnumPrefix panics", HexB([]byte(s)), HexB([]byte(prefix)))
+				out, tok = "", "panic"
+			}
+		}()
+		out = strs.TrimEnumPrefix(s, prefix)
+		return out, HexB([]byte(out))
+	}()
+	in := []string{HexB([]byte(s)), HexB([]byte(prefix))}
+	c.Case("names", "go_trim", in, []string{tok})
+	if tok == "panic" {
+		return
+	}
+	c.Case("names", "trim", in, []string{tok})
+	if !strings.HasSuffix(s, out) || (s != "" && out == "") {
+		c.PropFail("C42", "TrimEnumPrefix result is not a non-empty suffix of the value name", in[0], in[1], tok)
+	}
+	if out != s {
+		c.Stat("trim_trimmed")
+	} else {
+		c.Stat("trim_unchanged")
+	}
+}
+
+func namesTrimAll(c *Ctx) {
+	for b := 0; b < 256; b++ {
+		c.Case("names", "go_lower", []string{HexN(uint64(b))}, []string{HexN(uint64(unicode.ToLower(rune(byte(b)))))})
+	}
+	for _, p := range namesTrimCorpus {
+		namesTrim(c, p[0], p[1])
+	}
+	var prefixes []string
+	namesEnum([]byte("ab\xe0"), 2, func(p string) { prefixes = append(prefixes, p) })
+	namesEnum([]byte("aA_b\xc0"), 4, func(s string) {
+		for _, p := range prefixes {
+			namesTrim(c, s, p)
+		}
+	})
+}
+
+func namesTrimRandom(c *Ctx) {
+	parts := []string{"FOO", "foo", "Foo", "BAR", "bar", "_", "__", "x", "X", "1", "\xc0", "\xe0", "\xd7", "\xff"}
+	var s, p strings.Builder
+	for k := c.Intn(5); k >= 0; k-- {
+		s.WriteString(parts[c.Intn(len(parts))])
+	}
+	if c.Intn(3) > 0 {
+		// a prefix that matches: the lower-cased, underscore-free beginning of s
+		t := strings.ReplaceAll(strings.ToLower(s.String()), "_", "")
+		if len(t) > 0 {
+			t = t[:1+c.Intn(len(t))]
+		}
+		p.WriteString(t)
+	} else {
+		for k := c.Intn(3); k > 0; k-- {
+			p.WriteString(strings.ToLower(parts[c.Intn(len(parts))]))
+		}
+	}
+	namesTrim(c, s.String(), p.String())
+}
+
+func namesBool(b bool) string {
+	if b {
+		return "1"
+	}
+	return "0"
+}
+
+// namesSkipGo: the go_pure comparison (translated source against implementation) is
+// left out for the 64^3 three-byte strings over the full-name alphabet; the class
+// representatives up to length 5 cover every path through the three loops.
+var namesSkipGo bool
+
 func namesPure(c *Ctx, s string) {
-	cc := strs.GoCamelCase(s)
-	jc := strs.JSONCamelCase(s)
-	js := strs.JSONSnakeCase(s)
+	cc, t1 := namesCall(c, "GoCamelCase", strs.GoCamelCase, s)
+	jc, t2 := namesCall(c, "JSONCamelCase", strs.JSONCamelCase, s)
+	js, t3 := namesCall(c, "JSONSnakeCase", strs.JSONSnakeCase, s)
+	panicked := t1 == "panic" || t2 == "panic" || t3 == "panic"
+	if !namesSkipGo || panicked {
+		c.Case("names", "go_pure", []string{HexB([]byte(s))}, []string{t1, t2, t3})
+	}
+	if panicked {
+		return
+	}
 	cls, out := namesFieldMask(c, s)
 	c.Case("names", "pure", []string{HexB([]byte(s))},
 		[]string{HexB([]byte(cc)), HexB([]byte(jc)), HexB([]byte(js)), fmt.Sprint(cls), HexB([]byte(out))})
@@ -258,6 +387,8 @@ func famNames(c *Ctx) {
 			c.PropFail("C42", fmt.Sprintf("panic: %v", r))
 		}
 	}()
+	namesClasses(c)
+	namesTrimAll(c)
 	for _, s := range namesCorpus {
 		namesPure(c, s)
 		namesSan(c, s)
@@ -279,7 +410,11 @@ func famNames(c *Ctx) {
 			namesSan(c, s)
 		}
 	})
-	namesEnum(namesIdentAlphabet, l2, func(s string) { namesPure(c, s) })
+	namesEnum(namesIdentAlphabet, l2, func(s string) {
+		namesSkipGo = len(s) >= 3
+		namesPure(c, s)
+		namesSkipGo = false
+	})
 	namesRandom(c, c.N)
 	namesUniqueCorpus(c)
 	namesUniqueRandom(c, c.N/8)
@@ -297,6 +432,9 @@ func famNamesRand(c *Ctx) {
 
 func namesRandom(c *Ctx, n int) {
 	for i := 0; i < n; i++ {
+		if i%8 == 0 {
+			namesTrimRandom(c)
+		}
 		switch c.Intn(3) {
 		case 0:
 			namesPure(c, namesRandIdentish(c))
